@@ -490,8 +490,10 @@ theorem noErrors_walkParts (parts : List String) (root : Entry) (cur : Option Pa
     (fun root p h => everyNode_updateAt_own _ ownOnly_noErrorsHere _ noErrors_setImplicitOut p root h)
     parts root cur h
 
-/-- `find` only ever changes a tree through `walkParts`. -/
+/-- `find` changes a tree through `walkParts`, or records an error on the root of the tree it
+started in (an unresolvable prefix). -/
 theorem find_inv (P : Entry → Prop) (hw : ∀ parts root cur, P root → P (walkParts parts root cur).2)
+    (hadd : ∀ e x, P e → P (e.addErr x))
     (reg : Registry) (f : Forest) (start : Loc) (ctx : Nat) (name : String) (hf : ForestAll P f) :
     ForestAll P (find reg f start ctx name).2 := by
   unfold find
@@ -500,6 +502,23 @@ theorem find_inv (P : Entry → Prop) (hw : ∀ parts root cur, P root → P (wa
   all_goals first
     | exact hf
     | (rename_i heq
+       exact forestAll_setTree _ _ _ hf (hw _ _ _ (forestAll_tree? _ _ _ hf heq)))
+    | (rename_i heq
+       exact forestAll_setTree _ _ _ hf (hadd _ _ (forestAll_tree? _ _ _ hf heq)))
+
+/-- When `find` finds something, it has changed trees through `walkParts` only. -/
+theorem find_inv_some (P : Entry → Prop) (hw : ∀ parts root cur, P root → P (walkParts parts root cur).2)
+    (reg : Registry) (f : Forest) (start : Loc) (ctx : Nat) (name : String) (hf : ForestAll P f)
+    (hsome : (find reg f start ctx name).1 ≠ none) :
+    ForestAll P (find reg f start ctx name).2 := by
+  revert hsome
+  unfold find
+  dsimp only
+  repeat' split
+  all_goals first
+    | (intro _; exact hf)
+    | (intro h; exact absurd rfl h)
+    | (intro hs; rename_i heq
        exact forestAll_setTree _ _ _ hf (hw _ _ _ (forestAll_tree? _ _ _ hf heq)))
 
 /-- What `find` returns is a location in the forest it returns (when the caller looks it up). -/
@@ -524,49 +543,75 @@ theorem noErrors_removeAt (root : Entry) (p : Path) (h : NoErrors root) : NoErro
     exact ⟨hx.1, hx.2.1, hx.2.2.1, by simp⟩
   · exact h
 
-/-- The deviations of one module keep an error-free forest error-free (the errors of a deviation
-are returned, never recorded on a node). -/
+/-- The deviations of one module keep an error-free forest error-free, unless they return an
+error (the errors of a deviation are returned, never recorded on a node; a target path whose
+prefix cannot be resolved records an error on the tree and then fails the deviation). -/
 theorem noErrors_applyDeviations (reg : Registry) (opts : Opts) (m : Mod) (devs : List (Stmt × List (String × Entry)))
-    (f : Forest) (hf : ForestAll NoErrors f) : ForestAll NoErrors (applyDeviations reg opts m devs f).1 := by
+    (f : Forest) (hf : ForestAll NoErrors f) (hclean : (applyDeviations reg opts m devs f).2 = []) :
+    ForestAll NoErrors (applyDeviations reg opts m devs f).1 := by
+  revert hclean
   unfold applyDeviations
-  refine foldl_inv (fun acc : Forest × List Err => ForestAll NoErrors acc.1) _ devs (f, []) hf ?_
-  rintro ⟨f, errs⟩ ⟨dstmt, deviates⟩ _ hf
-  dsimp only at hf ⊢
-  have hfind := find_inv NoErrors noErrors_walkParts reg f (m.seq, []) m.seq dstmt.arg hf
+  refine foldl_inv (fun acc : Forest × List Err => acc.2 = [] → ForestAll NoErrors acc.1) _ devs (f, []) (fun _ => hf) ?_
+  rintro ⟨f, errs⟩ ⟨dstmt, deviates⟩ _ hP
+  dsimp only at hP ⊢
+  have hfind := find_inv_some NoErrors noErrors_walkParts reg f (m.seq, []) m.seq dstmt.arg
   generalize find reg f (m.seq, []) m.seq dstmt.arg = r at hfind
   obtain ⟨target, f'⟩ := r
   dsimp only at hfind ⊢
   split
-  · exact hfind
+  · intro h; simp at h
   · rename_i t path
     split
-    · exact hfind
+    · intro h; simp at h
     · rename_i node0 hn0
-      have hnode0 : NoErrors node0 := by
+      dsimp only
+      have key := foldl_inv (fun acc : Forest × Entry × Bool × List Err =>
+          (∃ l, acc.2.2.2 = errs ++ l) ∧ (errs = [] → ForestAll NoErrors acc.1 ∧ NoErrors acc.2.1))
+        (fun (acc : Forest × Entry × Bool × List Err) (ds : String × Entry) =>
+          let (f, node, detached, errs) := acc
+          let (node', remove, es) := applyOneDeviate opts m.stmt ds.1 ds.2 (!path.isEmpty) node
+          let es := if remove && detached then es ++ [Err.at_ m.stmt "deviate-already-removed"] else es
+          let f := if detached then f else
+            match f.tree? t with
+            | none => f
+            | some root =>
+              let root := root.updateAt path fun _ => node'
+              f.setTree t (if remove then removeAt root path else root)
+          (f, node', detached || remove, errs ++ es))
+        deviates (f', node0, false, errs) ⟨⟨[], by simp⟩, ?_⟩ ?_
+      · intro hfin
+        obtain ⟨⟨l, hl⟩, hk⟩ := key
+        have he : errs = [] := by
+          have := hl.symm.trans hfin
+          simp only [List.append_eq_nil_iff] at this; exact this.1
+        exact (hk he).1
+      · intro he
+        have hf' := hfind (hP he) (by simp)
+        refine ⟨hf', ?_⟩
         cases ht : f'.tree? t with
         | none => simp [ht] at hn0
         | some root =>
           simp only [ht, Option.bind_some] at hn0
-          exact everyNode_getAt _ path root node0 (forestAll_tree? _ _ _ hfind ht) hn0
-      dsimp only
-      refine (foldl_inv (fun acc : Forest × Entry × Bool × List Err => ForestAll NoErrors acc.1 ∧ NoErrors acc.2.1)
-        _ _ _ ⟨hfind, hnode0⟩ ?_).1
-      rintro ⟨f2, node, detached, errs2⟩ ds _ ⟨hf2, hnode⟩
-      dsimp only at hf2 hnode ⊢
-      have hnode' := noErrors_of_equiv (applyOneDeviate_equiv opts m.stmt ds.1 ds.2 (!path.isEmpty) node) hnode
-      refine ⟨?_, hnode'⟩
-      split
-      · exact hf2
-      · split
+          exact everyNode_getAt _ path root node0 (forestAll_tree? _ _ _ hf' ht) hn0
+      · rintro ⟨f2, node, detached, errs2⟩ ds _ ⟨⟨l, hl⟩, hk⟩
+        dsimp only at hl hk ⊢
+        refine ⟨⟨l ++ _, by rw [hl, List.append_assoc]⟩, ?_⟩
+        intro he
+        obtain ⟨hf2, hnode⟩ := hk he
+        have hnode' := noErrors_of_equiv (applyOneDeviate_equiv opts m.stmt ds.1 ds.2 (!path.isEmpty) node) hnode
+        refine ⟨?_, hnode'⟩
+        split
         · exact hf2
-        · rename_i root hroot
-          have hr := forestAll_tree? _ _ _ hf2 hroot
-          have hr' : NoErrors (root.updateAt path fun _ => (applyOneDeviate opts m.stmt ds.1 ds.2 (!path.isEmpty) node).1) :=
-            everyNode_updateAt_own _ ownOnly_noErrorsHere _ (fun _ _ => hnode') path root hr
-          apply forestAll_setTree _ _ _ hf2
-          split
-          · exact noErrors_removeAt _ _ hr'
-          · exact hr'
+        · split
+          · exact hf2
+          · rename_i root hroot
+            have hr := forestAll_tree? _ _ _ hf2 hroot
+            have hr' : NoErrors (root.updateAt path fun _ => (applyOneDeviate opts m.stmt ds.1 ds.2 (!path.isEmpty) node).1) :=
+              everyNode_updateAt_own _ ownOnly_noErrorsHere _ (fun _ _ => hnode') path root hr
+            apply forestAll_setTree _ _ _ hf2
+            split
+            · exact noErrors_removeAt _ _ hr'
+            · exact hr'
 
 theorem forestErrs_eq_nil (f : Forest) : forestErrs f = [] ↔ ForestAll NoErrors f := by
   unfold forestErrs ForestAll
@@ -575,15 +620,21 @@ theorem forestErrs_eq_nil (f : Forest) : forestErrs f = [] ↔ ForestAll NoError
   · intro h t ht; exact (noErrors_iff _).2 (h _ t ht rfl)
   · rintro h l t ht rfl; exact (noErrors_iff _).1 (h t ht)
 
-theorem devStage_noErrors (reg : Registry) (opts : Opts) (plug : Plug) (f0 : Forest) (h : ForestAll NoErrors f0) :
+theorem devStage_noErrors (reg : Registry) (opts : Opts) (plug : Plug) (f0 : Forest) (h : ForestAll NoErrors f0)
+    (hclean : (devStage reg opts plug f0).2.1 = []) :
     ForestAll NoErrors (devStage reg opts plug f0).1 := by
+  revert hclean
   unfold devStage
-  refine foldl_inv (fun acc : Forest × List Err × List String => ForestAll NoErrors acc.1) _ _ _ h ?_
-  rintro ⟨f, errs, done⟩ m _ hf
-  dsimp only at hf ⊢
+  refine foldl_inv (fun acc : Forest × List Err × List String => acc.2.1 = [] → ForestAll NoErrors acc.1) _ _ _
+    (fun _ => h) ?_
+  rintro ⟨f, errs, done⟩ m _ hP
+  dsimp only at hP ⊢
   split
-  · exact hf
-  · exact noErrors_applyDeviations _ _ _ _ _ hf
+  · exact hP
+  · dsimp only
+    intro he
+    simp only [List.append_eq_nil_iff] at he
+    exact noErrors_applyDeviations _ _ _ _ _ (hP he.1) he.2
 
 /-- The three ways `processAll` can end. -/
 theorem processAll_clean (reg : Registry) (opts : Opts) (plug : Plug) (h : (processAll reg opts plug).errors = []) :
@@ -614,9 +665,9 @@ theorem processAll_clean (reg : Registry) (opts : Opts) (plug : Plug) (h : (proc
 
 theorem process_clean_no_errors (reg : Registry) (opts : Opts) (plug : Plug)
     (h : (processAll reg opts plug).errors = []) : ForestAll NoErrors (processAll reg opts plug).forest := by
-  obtain ⟨_, _, h3, _, h5⟩ := processAll_clean reg opts plug h
+  obtain ⟨_, _, h3, h4, h5⟩ := processAll_clean reg opts plug h
   rw [h5]
-  exact devStage_noErrors _ _ _ _ ((forestErrs_eq_nil _).1 h3)
+  exact devStage_noErrors _ _ _ _ ((forestErrs_eq_nil _).1 h3) h4
 
 /-! ### `toEntry`, one level unfolded with its local functions named -/
 
@@ -648,10 +699,10 @@ def stepFn (acc : Entry × TState) (f : String) : Entry × TState :=
     (match n.argOf? "key" with
       | some v => e.withD fun d => { d with key := v }
       | none => e, st)
-  | "action" | "anydata" | "anyxml" | "case" | "choice" | "container" | "leaf" | "leaf-list" | "list"
+  | "anydata" | "anyxml" | "case" | "choice" | "container" | "leaf" | "leaf-list" | "list"
   | "notification" => addAllFn rec root n sub visiting f acc
-  | "rpc" =>
-    (n.all "rpc").foldl (fun (acc : Entry × TState) c =>
+  | "rpc" | "action" =>
+    (n.all f).foldl (fun (acc : Entry × TState) c =>
       let (ce, st) := rec root sub c visiting acc.2
       (acc.1.add c.arg (ce.withD fun d => { d with isRpc := true }), st)) acc
   | "grouping" =>
